@@ -11,7 +11,7 @@
    the theorems cover all builtin value kinds, well- and ill-typed programs, every nesting depth and every fuel.
    The subset is the whole of Interp/Syntax.v (the translator refuses any other node), so no [supported]
    side condition is needed. *)
-From PV Require Import Common.Util Interp.Syntax Interp.Host Interp.PsEval Interp.PyRef Interp.BuiltinHost
+From PV Require Import Common.Util Interp.Syntax Interp.Host Interp.PsEval Interp.PyRef Interp.BuiltinHost Interp.EvalCheck
   Proofs.InterpEquiv Proofs.InterpWitness.
 
 (* The conformant evaluator (all deviation switches off) and the reference agree on the whole run record — final
